@@ -413,7 +413,7 @@ pub fn run(ctx: &mut Ctx) {
             };
             ctx.transitions(f.n_steps());
             // the same facts loaded from hp.obo and the annotation files (both loaders), where the loaders take them:
-            // an hp.obo without HP:0000118 or with several roots is outside what the loaders are documented for
+            // an hp.obo without HP:0000118 is outside what the loaders are documented for
             let mut onts: Vec<(&str, Ontology)> = vec![("Builder", ont)];
             for transitive in [false, true] {
                 match crate::jax::load(&crate::jax::render(&f, &crate::jax::JaxOpts::default()), transitive) {
@@ -421,7 +421,7 @@ pub fn run(ctx: &mut Ctx) {
                         ctx.transitions(f.n_steps());
                         onts.push((if transitive { "from_standard_transitive" } else { "from_standard" }, o));
                     }
-                    _ => ctx.bump("skipped: text loaders refuse this hp.obo (no HP:0000118 / several roots)", 1),
+                    _ => ctx.bump("skipped: text loaders refuse this hp.obo (the two-term graphs, which lack HP:0000118)", 1),
                 }
             }
             let full = (1u32 << n) - 1;
